@@ -1,11 +1,22 @@
 """Some tools."""
 
-from typing import List
+import re
+from typing import List, Union
+
+STRING_EXPR = re.compile(r'"(?:[^"\\]|\\.)*"')
 
 
-def to_list(stringlist: str, unquote: bool = True) -> List[str]:
+def unquote_string(string: str) -> str:
+    """Remove the quotes surrounding a string (and its escapes)."""
+    if len(string) >= 2 and string.startswith('"') and string.endswith('"'):
+        return re.sub(r"\\(.)", r"\1", string[1:-1])
+    return string
+
+
+def to_list(stringlist: Union[str, List[str]], unquote: bool = True) -> List[str]:
     """Convert a string representing a list to real list."""
-    stringlist = stringlist[1:-1]
-    return [
-        string.strip('"') if unquote else string for string in stringlist.split(",")
-    ]
+    if isinstance(stringlist, list):
+        strings = stringlist
+    else:
+        strings = STRING_EXPR.findall(stringlist)
+    return [unquote_string(string) if unquote else string for string in strings]
